@@ -57,7 +57,9 @@ def stemsOp (j : Json) (trie : SNode Str) : Json :=
     | none => .null
   | "fp" =>
     let E := if mp then stringEnv (punyOf j) id trie else envOf j trie
-    exceptJson ((fingerprintedLruStems sp E sa (fieldBool j "strip_suffix") url).map stemsJson)
+    exceptJson ((fingerprintedLruStems sp E sa (fieldBool j "strip_suffix") url).map fun
+      | some l => stemsJson l
+      | none => .null)
   | v => jerr s!"unknown-variant: {v}"
 
 def urlStemsOp (j : Json) : Json :=
